@@ -310,7 +310,7 @@ fn parse_member(s: &str) -> Option<Result<(BV, RootInfo), ()>> {
     let len = p[1].parse::<usize>().ok()?;
     let mem = unhex(p[2]);
     let mut root = mk_root(p[0], len, &mem)?;
-    let ri = RootInfo::of(&mut root);
+    let ri = RootInfo::of(&mut root, mem.len());
     if p.len() == 3 {
         return Some(Ok((root, ri)));
     }
@@ -440,6 +440,64 @@ impl VMachine {
         })
     }
 
+    fn pre(&self) -> Pre {
+        let shape = self.base_shape();
+        let reused = self.members.iter().any(|m| unsafe { (*m.obj).reused_uninit() });
+        let eligible = !self.ever_unpacked
+            && is_packed(&shape)
+            && shape.iter().all(|s| s.is_some())
+            && !reused
+            && !self.any_bounded_member();
+        Pre { shape, roots: self.roots(), eligible }
+    }
+
+    /// **Distribution oracle** (implementation only): after a total of `n_total` bytes (capacity space, counted
+    /// from member 0 of the base container) has been recorded on packed fresh members and `n_total` is not below
+    /// what was initialised before, member `i` must hold exactly `min(cap_i, n_total - sum of earlier caps)`
+    /// bytes (so the total is `n_total`), and — when the bytes were written by the harness (`written` = member,
+    /// root offset, length) — every byte that became visible must be one of the written ones.
+    fn check_distribution(&self, ex: &mut Exec, ctx: &str, pre: &Pre, n_total: usize, written: Option<&[(usize, usize, usize)]>) {
+        if !pre.eligible {
+            return;
+        }
+        let shape: Vec<(usize, usize)> = pre.shape.iter().map(|s| s.unwrap()).collect();
+        let (lens, caps): (usize, usize) = (shape.iter().map(|x| x.0).sum(), shape.iter().map(|x| x.1).sum());
+        if n_total < lens || n_total > caps {
+            return;
+        }
+        ex.tag("distribution-checked");
+        let after = self.base_shape();
+        let mut bad = vec![];
+        let mut acc = 0usize;
+        let mut want_all = vec![];
+        for (i, (_, c)) in shape.iter().enumerate() {
+            let want = (*c).min(n_total.saturating_sub(acc));
+            acc += c;
+            want_all.push(want);
+            match after[i] {
+                Some((li, _)) if li == want => {}
+                other => bad.push(format!("member {i} (cap {c}) holds {:?} bytes, expected {want}", other.map(|x| x.0))),
+            }
+        }
+        if let Some(written) = written {
+            let roots = self.roots();
+            for i in 0..shape.len() {
+                for pos in pre.roots.lens[i]..roots.lens[i] {
+                    if !written.iter().any(|(j, off, l)| *j == i && *off <= pos && pos < off + l) {
+                        bad.push(format!("member {i}: never-written byte at root offset {pos} became visible"));
+                        break;
+                    }
+                }
+            }
+        }
+        if !bad.is_empty() {
+            ex.fail(
+                "C10:vectored-distribution",
+                format!("{ctx}: recording a total of {n_total} over members (len, cap) {:?}, expected lens {:?}: {}", shape, want_all, bad.join("; ")),
+            );
+        }
+    }
+
     /// total capacity of the base container (None if a member's as_uninit panics)
     fn base_cap(&self) -> Option<usize> {
         self.base_shape().iter().map(|s| s.map(|x| x.1)).sum()
@@ -554,6 +612,7 @@ impl VMachine {
             }
             for (m, ri) in ms.iter_mut().zip(ris) {
                 let obj: *mut dyn DynView = &mut **m;
+                ri.monitor(ex, line);
                 self.members.push(Member { obj, ri });
             }
             ex.tag(format!("vroot:{}", w[1]));
@@ -584,7 +643,9 @@ impl VMachine {
                 let shape = self.base_shape();
                 let reused = self.members.iter().any(|m| unsafe { (*m.obj).reused_uninit() });
                 let bounded_before = self.any_bounded_member();
+                let pre = self.pre();
                 let VSt::Vec(v) = &mut self.st else { unreachable!() };
+                let bsum = v.begin_sum();
                 let Ok(tc) = before.tc else {
                     self.st = VSt::Dead;
                     return "panic".into();
@@ -646,12 +707,35 @@ impl VMachine {
                     ex.tag("vfill-law-broken");
                     ex.fail(sig, format!("{line} on s={} u={} shape={:?}: {}", show_items(&before.s), show_items(&before.u), shape, bad.join("; ")));
                 }
+                // recorded (advance_vec_to calls set_len) iff k exceeds the view's total_len
+                if let (Ok(tl), Ok(u)) = (&before.tl, &before.u) {
+                    if k > *tl {
+                        let mut written = vec![];
+                        let mut rest = k;
+                        for (j, off, l) in u {
+                            if rest == 0 {
+                                break;
+                            }
+                            let n = (*l).min(rest);
+                            written.push((*j, *off, n));
+                            rest -= n;
+                        }
+                        // bytes between the initialised prefix and a slice that starts beyond it are the
+                        // caller's business: only a view starting inside the prefix must expose nothing unwritten
+                        let lens: usize = pre.shape.iter().map(|s| s.map(|x| x.0).unwrap_or(0)).sum();
+                        let w = if bsum <= lens { Some(&written[..]) } else { None };
+                        self.check_distribution(ex, line, &pre, bsum + k, w);
+                    }
+                }
                 self.vline(ex, line)
             }
             ["vsetlen", n] | ["vadvto", n] => {
                 let Ok(n) = n.parse::<usize>() else { return "bad-op".into() };
                 let base_cap = self.base_cap();
+                let pre = self.pre();
                 let VSt::Vec(v) = &mut self.st else { unreachable!() };
+                let bsum = v.begin_sum();
+                let tl_before = v.total_len();
                 let Ok(tc) = v.total_cap() else {
                     self.st = VSt::Dead;
                     return "panic".into();
@@ -670,6 +754,9 @@ impl VMachine {
                     return "panic".into();
                 }
                 ex.tag(w[0].to_string());
+                if w[0] == "vsetlen" || tl_before.map(|tl| n > tl).unwrap_or(false) {
+                    self.check_distribution(ex, line, &pre, bsum + n, None);
+                }
                 self.vline(ex, line)
             }
             ["vslice", b] | ["vslicemut", b] => {
@@ -732,8 +819,10 @@ impl VMachine {
                 let reused = self.members.iter().any(|m| unsafe { (*m.obj).reused_uninit() });
                 let bounded_before = self.any_bounded_member();
                 let base_cap = self.base_cap();
+                let pre = self.pre();
                 let VSt::Iter(it, idx, bsum, first) = &mut self.st else { unreachable!() };
                 let idx = *idx;
+                let bsum_v = *bsum;
                 // current capacities of the members the iterator has passed
                 let earlier: usize = shape[*first..idx].iter().map(|s| s.map(|x| x.1).unwrap_or(0)).sum();
                 let Ok((j, off, c)) = bu else {
@@ -795,14 +884,27 @@ impl VMachine {
                     ex.tag("ifill-law-broken");
                     ex.fail(sig, format!("{line} at member {idx}, shape={shape:?}: {}", bad.join("; ")));
                 }
+                // the iterator's own accounting is exact while no capacity lies before the current position and
+                // the position has not been recorded before; recorded iff k exceeds the iterator's buf_len
+                if let (Ok((_, oi, li)), Ok((_, ou, _))) = (bi, bu) {
+                    let no_earlier_cap = shape[..idx].iter().all(|s| matches!(s, Some((_, 0))));
+                    if no_earlier_cap && oi == ou && k > li {
+                        let lens: usize = pre.shape.iter().map(|s| s.map(|x| x.0).unwrap_or(0)).sum();
+                        let wr = [(j, off, k)];
+                        self.check_distribution(ex, line, &pre, bsum_v + k, if bsum_v <= lens { Some(&wr[..]) } else { None });
+                    }
+                }
                 self.iline(ex, line)
             }
             ["isetlen", n] | ["iadvto", n] => {
                 let Ok(n) = n.parse::<usize>() else { return "bad-op".into() };
                 let base_cap = self.base_cap();
                 let shape = self.base_shape();
+                let pre = self.pre();
+                let (bi, bu) = self.iobs();
                 let VSt::Iter(it, idx, bsum, first) = &mut self.st else { unreachable!() };
                 let earlier: usize = shape[*first..*idx].iter().map(|s| s.map(|x| x.1).unwrap_or(0)).sum();
+                let (idx_v, bsum_v) = (*idx, *bsum);
                 let Ok((_, c)) = it.uninit() else {
                     self.st = VSt::Dead;
                     return "panic".into();
@@ -819,6 +921,12 @@ impl VMachine {
                     return "panic".into();
                 }
                 ex.tag(w[0].to_string());
+                if let (Ok((_, oi, li)), Ok((_, ou, _))) = (bi, bu) {
+                    let no_earlier_cap = shape[..idx_v].iter().all(|s| matches!(s, Some((_, 0))));
+                    if no_earlier_cap && oi == ou && (w[0] == "isetlen" || n > li) {
+                        self.check_distribution(ex, line, &pre, bsum_v + n, None);
+                    }
+                }
                 self.iline(ex, line)
             }
             ["inext"] => {
@@ -869,6 +977,15 @@ impl VMachine {
     }
 }
 
+/// what is known before a recording call, for the distribution oracle
+struct Pre {
+    shape: Vec<Option<(usize, usize)>>,
+    roots: RootsObs,
+    /// members packed (now and always before), fresh (no re-used Uninit), none end-bounded inside its root:
+    /// the situation in which vectored recording is specified (and proved) to be exact
+    eligible: bool,
+}
+
 /// packed: full members, then at most one partial member, then empty members
 fn is_packed(shape: &[Option<(usize, usize)>]) -> bool {
     let mut seen_partial = false;
@@ -889,19 +1006,31 @@ fn is_packed(shape: &[Option<(usize, usize)>]) -> bool {
 // exec / generate
 // ---------------------------------------------------------------------------------------------
 
+/// `VMachine::apply` that can never take the process down (see `safe_apply` in c10.rs)
+pub fn safe_vapply(m: &mut VMachine, line: &str, ex: &mut Exec) -> String {
+    match catch(|| m.apply(line, ex)) {
+        Ok(o) => o,
+        Err(msg) => {
+            ex.fail("C10:panic", format!("{line}: panic outside the modelled panics: {msg}"));
+            *m = VMachine::new();
+            "harness-panic".into()
+        }
+    }
+}
+
 pub fn exec(case: &Case, ex: &mut Exec) {
     let mut m = VMachine::new();
     let mut recorded = false;
     let mut viewed = false;
     for l in &case.lines {
-        let o = m.apply(l, ex);
+        let o = safe_vapply(&mut m, l, ex);
         if (l.starts_with("vfill ") || l.starts_with("ifill ")) && (o.starts_with("s=") || o.starts_with("i=")) {
             recorded = true;
         }
         if m.depth() > 0 || m.in_iter() {
             viewed = true;
         }
-        if o == "panic" {
+        if o == "panic" || o == "harness-panic" {
             ex.nontrivial = true;
         }
         ex.out.push(o);
@@ -950,11 +1079,12 @@ fn fresh(rng: &mut Rng, k: usize) -> Vec<u8> {
 
 fn gen_vprogram(rng: &mut Rng) -> Vec<String> {
     let vk = *rng.pick(&["vec", "vec", "arr", "arrayvec", "smallvec", "tuple1", "tuple0"]);
+    // three and more members with small unequal capacities are the interesting distributions
     let n = match vk {
-        "tuple1" => rng.range(1, 3),
+        "tuple1" => *rng.pick(&[1u64, 2, 3, 3, 3]),
         "tuple0" => rng.range(0, 2),
-        "arr" => *rng.pick(&[0u64, 2, 2, 3, 3]),
-        _ => rng.range(0, 4),
+        "arr" => *rng.pick(&[0u64, 2, 3, 3, 3]),
+        _ => *rng.pick(&[0u64, 1, 2, 3, 3, 3, 4, 4, 4]),
     } as usize;
     // mostly packed shapes (full*, partial?, empty*), sometimes arbitrary
     let packed = rng.chance(3, 4);
@@ -968,7 +1098,7 @@ fn gen_vprogram(rng: &mut Rng) -> Vec<String> {
     let mut lines = vec![format!("vroot {vk} {}", if ms.is_empty() { "-".to_string() } else { ms.join(";") })];
     let mut m = VMachine::new();
     let mut scratch = Exec::new();
-    m.apply(&lines[0], &mut scratch);
+    safe_vapply(&mut m, &lines[0], &mut scratch);
     let n_ops = rng.range(1, 7);
     for _ in 0..n_ops {
         if !m.alive() {
@@ -994,8 +1124,12 @@ fn gen_vprogram(rng: &mut Rng) -> Vec<String> {
                     let k = if hostile { tc + 1 } else if rng.chance(1, 5) { tc } else { rng.range(0, tc as u64) as usize };
                     format!("vfill {}", hex(&fresh(rng, k)))
                 }
-                8 => format!("vsetlen {}", rng.range(0, tc as u64 + hostile as u64)),
-                9 => format!("vadvto {}", rng.range(0, tc as u64 + hostile as u64)),
+                // mostly growing totals (what drivers record), sometimes shrinking ones
+                8 | 9 => {
+                    let lo = if rng.chance(2, 3) { tl.min(tc) } else { 0 };
+                    let n = rng.range(lo as u64, tc as u64 + hostile as u64);
+                    format!("{} {n}", if rng.chance(1, 2) { "vsetlen" } else { "vadvto" })
+                }
                 10..=12 if m.depth() < 2 => {
                     let hi = if rng.chance(4, 5) { tl } else { tc };
                     format!("vslicemut {}", rng.range(0, hi as u64 + hostile as u64))
@@ -1012,12 +1146,12 @@ fn gen_vprogram(rng: &mut Rng) -> Vec<String> {
         if std::env::var_os("C10_VERBOSE").is_some() {
             eprintln!("GEN {:?} + {l}", lines);
         }
-        m.apply(&l, &mut scratch);
+        safe_vapply(&mut m, &l, &mut scratch);
         lines.push(l);
     }
     if m.in_iter() {
         let l = "iinner".to_string();
-        m.apply(&l, &mut scratch);
+        safe_vapply(&mut m, &l, &mut scratch);
         lines.push(l);
     }
     lines.push("end".into());
@@ -1029,7 +1163,46 @@ pub fn generate(tier: &str, rng: &mut Rng, cases: &mut Vec<Case>) {
     for i in 0..n {
         cases.push(Case { name: format!("vprog-{i}"), lines: gen_vprogram(rng) });
     }
-    // exhaustive: two/three small Vec members (all shapes), one vectored fill of every length, list and tuple containers
+    // exhaustive: three small Vec members, every packed shape, every recorded total not below the initialised
+    // length, through set_len / advance_vec_to / a vectored fill / slice_mut + fill, list and tuple containers
+    let cmax = if tier == "thorough" { 3 } else { 2 };
+    let mut id3 = 0;
+    for vk in ["vec", "tuple1", "arrayvec"] {
+        for caps in (0..(cmax + 1usize).pow(3)).map(|x| [x % (cmax + 1), x / (cmax + 1) % (cmax + 1), x / (cmax + 1) / (cmax + 1)]) {
+            for p in 0..3 {
+                for l in 0..=caps[p] {
+                    if l == caps[p] && p < 2 {
+                        continue; // the same shape as (p + 1, 0)
+                    }
+                    let lens: Vec<usize> = (0..3).map(|i| if i < p { caps[i] } else if i == p { l } else { 0 }).collect();
+                    let total_cap: usize = caps.iter().sum();
+                    let total_len: usize = lens.iter().sum();
+                    let members: Vec<String> = (0..3)
+                        .map(|i| format!("vec:{}:{}", lens[i], hex(&(0..caps[i]).map(|b| (0x10 * (i + 1) + b) as u8).collect::<Vec<u8>>())))
+                        .collect();
+                    let root = format!("vroot {vk} {}", members.join(";"));
+                    for n in total_len..=total_cap {
+                        let mut progs: Vec<Vec<String>> = vec![
+                            vec![format!("vsetlen {n}")],
+                            vec![format!("vadvto {n}")],
+                            vec![format!("vfill {}", hex(&vec![0xEE; n]))],
+                        ];
+                        if n > total_len {
+                            progs.push(vec![format!("vslicemut {total_len}"), format!("vfill {}", hex(&vec![0xED; n - total_len]))]);
+                        }
+                        for prog in progs {
+                            let mut lines = vec![root.clone()];
+                            lines.extend(prog);
+                            lines.push("end".into());
+                            cases.push(Case { name: format!("vex3-{id3}"), lines });
+                            id3 += 1;
+                        }
+                    }
+                }
+            }
+        }
+    }
+    // exhaustive: two small Vec members (all shapes), one vectored fill of every length, list and tuple containers
     let max = if tier == "thorough" { 3 } else { 2 };
     let mut id = 0;
     for vk in ["vec", "tuple1", "tuple0"] {
